@@ -2,6 +2,7 @@ import ParryModel.C17.Theorems
 #print axioms C17.aabb_split_positive_iff
 #print axioms C17.aabb_split_negative_iff
 #print axioms C17.aabb_split_pair_spec
+#print axioms C17.aabb_difference_spec
 #print axioms C17.clip_aabb_line_some
 #print axioms C17.clip_aabb_line_none
 #print axioms C17.clip_aabb_line_some_nonempty
